@@ -183,6 +183,14 @@ def tie(ctx, res, texts, label='end_to_end_bash', binary_max=None):
             why = ('model says %s' % o[:160]) if m[0] != 'ok' else first_diff(str(m[1]), script)
             res.violations.append(report.Violation('tie broken (compile_bash): script differs from the binary\'s: ' + why,
                                                    dict(replay, why=why), found_input=False))
+    if label == 'end_to_end_bash':
+        # the theorems about compile_bash (totality, rejections, what the script embeds) live in Props/C04c.v
+        from .. import coqcheck
+        extra = coqcheck.check_property('C04c')
+        if not extra['ok']:
+            res.violations.append(report.Violation('proof obligations of C04c (compile_bash: totality / embedding) no longer check',
+                                                   dict(kind='proof-obligation', property='C04c', errors=extra['errors']), found_input=False))
+        res.extra['theorems_C04c'] = extra['theorems']
     res.extra[label] = dict(texts=len(texts), scripts_byte_identical=agree['script'], of_which_against_the_binary=agree['binary'], with_within_word_automata=with_words,
                             rejections_agree=agree['reject'], oracle_conflicts=agree['conflict'],
                             seconds=round(time.time() - t0, 1), harness_s=round(t_dump, 1), binary_s=round(t_bin, 1), model_s=round(t_model, 1))
